@@ -52,7 +52,18 @@ inline constexpr struct hypot {
         if (etl::isnan(x) or etl::isnan(y) or etl::isnan(z)) {
             return etl::numeric_limits<Float>::quiet_NaN();
         }
-        return etl::sqrt(x * x + y * y + z * z);
+        // scale by the largest magnitude so the squares can neither overflow nor underflow
+        x            = x < 0 ? -x : x;
+        y            = y < 0 ? -y : y;
+        z            = z < 0 ? -z : z;
+        auto const m = x < y ? (y < z ? z : y) : (x < z ? z : x);
+        if (m == 0) {
+            return Float(0);
+        }
+        x /= m;
+        y /= m;
+        z /= m;
+        return m * etl::sqrt(x * x + y * y + z * z);
     }
 
 } hypot;
